@@ -12,10 +12,11 @@ PROPS = {
         "scale": {"quick": 1, "thorough": 40},
         "floors": {
             "quick": {"ops": 100000, "std_triples": 10000, "drift_rechecks": 10000, "exh3_blocks": 96,
-                      "unique_table_grows": 100, "lru_overwrites": 1000, "op_compose": 100, "op_condition_model": 100, "op_new_var": 20},
+                      "unique_table_grows": 100, "lru_overwrites": 1000, "op_compose": 100, "op_condition_model": 100, "op_new_var": 20,
+                      "histories_over_spread_labels": 300},
             "thorough": {"ops": 2000000, "exh3_blocks": 192},
         },
-        "rule": "Every builder call is one evaluation: the returned BddPtr is walked structurally (var, low, high, complement bit) into a truth table and compared with the operation's definition applied to the oracle tables of its arguments (compose = documented exists v.(v<=>g)&f). Regimes: exh3 = all 256 functions of 3 variables x all 6 orders x both caches: all cofactors, exists, negations, all pairs for and/or/xor/iff/compose, ite over all (f,g) and every 16th h (every h in thorough); rand = short random histories (5-80 ops, <=6 vars, random order permutation, both caches, hook capacities from tiny to 1024); long = 800-2000-op histories on <=10 variables with 2..64-slot unique tables and 1..16-slot lossy caches; default (thorough) = library-default capacities. After every 16 ops all earlier results are re-walked (history independence). A case is non-trivial when the expected function is neither constant nor a literal; distinct = distinct (operation, expected function, order, cache kind) tuples (hash set), for exh3 distinct (op, argument indices, order/cache case).",
+        "rule": "Every builder call is one evaluation: the returned BddPtr is walked structurally (var, low, high, complement bit) into a truth table and compared with the operation's definition applied to the oracle tables of its arguments (compose = documented exists v.(v<=>g)&f). Regimes: exh3 = all 256 functions of 3 variables x all 6 orders x both caches: all cofactors, exists, negations, all pairs for and/or/xor/iff/compose, ite over all (f,g) and every 16th h (every h in thorough); rand = short random histories (5-80 ops, <=6 vars, random order permutation, both caches, hook capacities from tiny to 1024); long = 800-2000-op histories on <=10 variables with 2..64-slot unique tables and 1..16-slot lossy caches; default (thorough) = library-default capacities. After every 16 ops all earlier results are re-walked (history independence). A case is non-trivial when the expected function is neither constant nor a literal; distinct = distinct (operation, expected function, order, cache kind) tuples (hash set), for exh3 distinct (op, argument indices, order/cache case). Wide regime: the history's (at most 6 + run-time) variables are spread over up to 200 rsdd labels, biased to the 64/128 word boundaries, in a manager that knows every label up to the largest (order = random interleaving); the oracle keeps working on the dense variables through the harness's own label map and level map.",
         "exhaustive_note": "regime exh3 enumerates completely: all Boolean functions of 3 variables x all 6 variable orders x {AllIteTable, LruIteTable} for condition/exists/negate (all variables and values) and and/or/xor/iff/compose over all ordered pairs; ite is exhaustive over (f,g) and samples every 16th h in quick tier, every h in thorough. Everything else is sampling.",
         "assumptions": ASSUME_COMMON,
     },
@@ -25,11 +26,12 @@ PROPS = {
         "floors": {
             "quick": {"canon_results": 50000, "canon_repeat_functions": 10000, "nodes_shape_checked": 5000,
                       "membership_lookups": 50000, "histories_with_growth": 500, "lru_overwrites": 1000,
-                      "table_ops": 50000, "table_histories_with_growth": 300, "default_table_growths": 2, "big_rederivations": 200000},
+                      "table_ops": 50000, "table_histories_with_growth": 300, "default_table_growths": 2, "big_rederivations": 200000,
+                      "histories_over_spread_labels": 150},
             "thorough": {"canon_results": 1000000, "default_table_growths": 12},
         },
         "sanitizers": ["miri_table", "miri_bdd", "asan_bdd"],
-        "rule": "Per result: (a) a map oracle-truth-table -> first pointer seen: a result whose function is known must be pointer-equal (== and builder.eq) to the representative, and its negation must be the representative's negation; (b) every newly reachable node: level strictly increases along both edges under builder.order(), low != high, high edge neither complemented nor constant false; (c) table membership: get_or_insert of a structural copy of every known node returns the identical address, re-checked for all known nodes every 32 ops and at the end (i.e. after growth). Regime default_big uses the library-default capacities: 100 000-125 000 three-literal conjunctions over 80-100 variables in one builder (the real 131072-slot table grows), every function then re-derived along a second construction path and required to be the same pointer, plus shape and membership probes. Regime table drives the re-exported BackedRobinhoodTable directly with adversarial hashes (equal, adjacent, wrap-around, equal low bits) from 2..16 initial slots against a HashMap model: same key => same address, no aliasing, num_nodes == |model|, iter() yields each element once, get_by_hash finds every stored hash. evaluations = distinct-function insertions + table histories; a case is non-trivial when the function is neither constant nor a literal; distinct = distinct (function, order) pairs plus distinct table histories.",
+        "rule": "Per result: (a) a map oracle-truth-table -> first pointer seen: a result whose function is known must be pointer-equal (== and builder.eq) to the representative, and its negation must be the representative's negation; (b) every newly reachable node: level strictly increases along both edges under builder.order(), low != high, high edge neither complemented nor constant false; (c) table membership: get_or_insert of a structural copy of every known node returns the identical address, re-checked for all known nodes every 32 ops and at the end (i.e. after growth). Regime default_big uses the library-default capacities: 100 000-125 000 three-literal conjunctions over 80-100 variables in one builder (the real 131072-slot table grows), every function then re-derived along a second construction path and required to be the same pointer, plus shape and membership probes. Regime table drives the re-exported BackedRobinhoodTable directly with adversarial hashes (equal, adjacent, wrap-around, equal low bits) from 2..16 initial slots against a HashMap model: same key => same address, no aliasing, num_nodes == |model|, iter() yields each element once, get_by_hash finds every stored hash. evaluations = distinct-function insertions + table histories; a case is non-trivial when the function is neither constant nor a literal; distinct = distinct (function, order) pairs plus distinct table histories. Wide regime: the history's (at most 6 + run-time) variables are spread over up to 200 rsdd labels, biased to the 64/128 word boundaries, in a manager that knows every label up to the largest (order = random interleaving); the oracle keeps working on the dense variables through the harness's own label map and level map.",
         "assumptions": ASSUME_COMMON,
     },
     "C03": {
